@@ -350,7 +350,16 @@ def check_reject(ctx, out):
                 if "disabled_validators" in txt and "enabled_validators" in txt and all(("is_empty" in g[2]) for g in gs if "validators" in g[2]):
                     pol = [g[1] for g in gs if "validators" in g[2]]
                     if all(p == ["0"] for p in pol):
-                        found = True
+                        # the innermost of the two tests alone must decide: no further conjunct
+                        inner = [(br, vals) for br, vals, e in util.guards(ctx, av, bi) if "validators" in render(e, 300)]
+                        cfgv = cfg_of(av)
+                        last = [x for x in inner if all(cfgv.dominates(y[0], x[0]) for y in inner)]
+                        if last and util.arm_only_err(ctx, av, last[0][0], last[0][1]):
+                            found = True
+                        else:
+                            out.viol("C14.reject", "C14.reject|both-flags-weakened", ctx.where(av, s["span"]),
+                                     "using --enable and --disable together is rejected only under a further condition")
+                            found = True
         if found:
             n += 1
         else:
